@@ -5,6 +5,8 @@ _violates_constraint, _get_last_result on real FunctionResults/GradientResults/C
 objects whose numeric fields are symbolic.
 Bounded histories from the initial state, and one step from an arbitrary valid tracker state
 (a pre-held feasible non-NaN result), which is the inductive form.
+BasicBestCase: BasicOptimizer.__init__/run/results/variables over the real optimizer step, ensemble evaluator,
+ConstraintInfo and tracker.
 """
 from __future__ import annotations
 
@@ -172,6 +174,97 @@ class TrackerCase(Case):
         return {}
 
 
+class BasicBestCase(Case):
+    """BasicOptimizer end to end: a scripted algorithm asks for functions at several points; afterwards
+    BasicOptimizer.results / .variables are the feasible delivered result with the lowest objective (None if there is
+    no feasible one) - through the real optimizer step, ensemble evaluator, constraint info and tracker."""
+
+    family = "tracker/basic-optimizer"
+
+    def __init__(self, cid, *, n=3, tol=1e-10, maximize=False):
+        from . import ens
+        self.id, self.n, self.tol, self.maximize = cid, n, tol, maximize
+        self.family = "tracker/basic-optimizer" + ("/maximize" if maximize else "")
+        self.points = [np.array([0.25 * (e + 1), -0.5 + 0.125 * e]) for e in range(n)]
+        self.cfg_dict = ens.ensemble_config(N=2, R=1, P=1, C=1, con_bounds=([-np.inf], [0.0]), lower=-10.0, upper=10.0,
+                                            x0=list(self.points[0]), extra={"optimizer": {"method": "symstub/x"}}).model_dump(round_trip=True)
+
+    def describe(self):
+        return f"BasicOptimizer, {self.n} function evaluations, constraint g <= 0, tolerance {self.tol}, maximize={self.maximize}"
+
+    def inputs(self, env):
+        f = [SR(env.real(f"f_{e}", -100, 100).v, env.flag(f"nan_{e}").t) for e in range(self.n)]
+        g = [env.real(f"g_{e}", -10, 10) for e in range(self.n)]
+        return {"f": f, "g": g}
+
+    def run(self, env, inp):
+        from ropt.evaluator import EvaluatorResult
+        from ropt.plan import BasicOptimizer
+        from ropt.transforms import OptModelTransforms
+        from ropt.transforms.base import ObjectiveTransform
+        from . import ens
+
+        calls = []
+
+        def evaluator(variables, context):
+            e = len(calls)
+            calls.append(variables)
+            return EvaluatorResult(objectives=env.arr(np.array([[inp["f"][e]]], dtype=object)),
+                                   constraints=env.arr(np.array([[inp["g"][e]]], dtype=object)))
+
+        def script(opt, x0):
+            for e in range(self.n):
+                opt.callback(env.const(self.points[e]), return_functions=True, return_gradients=False)
+
+        class Maximize(ObjectiveTransform):
+            def to_optimizer(self, objectives):
+                return -objectives
+
+            def from_optimizer(self, objectives):
+                return -objectives
+
+            def weighted_objective_from_optimizer(self, weighted_objective):
+                return -weighted_objective
+
+        pm = ens.stub_optimizer_manager()
+        ens.set_script(script, allow_nan=True)
+        tr = OptModelTransforms(objectives=Maximize()) if self.maximize else None
+        d = dict(self.cfg_dict)
+        d["realizations"] = dict(d["realizations"], realization_min_success=0)
+        bo = BasicOptimizer(d, evaluator, transforms=tr, constraint_tolerance=self.tol)
+        bo._optimizer_context.plugin_manager = pm
+        bo.run()
+        return {"results": bo.results, "variables": bo.variables, "ncalls": len(calls), "exit": bo.exit_code}
+
+    def props(self, env, inp, oc):
+        if not oc.ok:
+            return [("no_internal_exception:" + type(oc.exc).__name__, SB(False))]
+        o = oc.value
+        n, f, g = self.n, inp["f"], inp["g"]
+        tol = SR(Fraction(self.tol))
+        feas = [And(Not(isnan(f[e])), Or(g[e] <= ZERO, g[e] - ZERO <= tol)) for e in range(n)]
+        sign = -1 if self.maximize else 1
+        props = [("all_points_evaluated", SB(o["ncalls"] == n))]
+        res = o["results"]
+        if res is None:
+            props.append(("no_result_only_if_nothing_is_feasible", Not(Or(*feas))))
+            return props
+        val = vals(res.functions.weighted_objective)
+        val = val if isinstance(val, SR) else np.asarray(val, dtype=object).ravel()[0]
+        x = np.asarray(vals(o["variables"]), dtype=object)
+        # it is one of the delivered feasible results ...
+        is_e = [And(feas[e], close(val, SR(f[e].v)), all_of(close(x[j], SR(Fraction(float(self.points[e][j])))) for j in range(2)))
+                for e in range(n)]
+        props.append(("reported_result_is_a_feasible_delivered_result", Or(*is_e)))
+        # ... and none of the feasible ones is better in the domain the optimizer minimises
+        props.append(("reported_result_is_the_best_feasible_one",
+                      all_of(Implies(feas[e], SR(val.v) * sign <= SR(f[e].v) * sign) for e in range(n))))
+        return props
+
+    def observe(self, env, inp, oc):
+        return {}
+
+
 def build_cases(tier):
     cases = []
     k = 0
@@ -203,6 +296,9 @@ def build_cases(tier):
         add(events=[(T, ["F", "F"])], pre_held=True, transform=tr)
         add(events=[(O, ["F"])], pre_held=True, transform=tr)
     add(events=[(T, ["F", "N", "G"])], pre_held=True, what="last")
+    for kw in (dict(n=3), dict(n=3, tol=0.0), dict(n=2, maximize=True), dict(n=3, tol=0.5, maximize=True)):
+        k += 1
+        cases.append(BasicBestCase(f"c12-{k:03d}", **kw))
     if tier == "thorough":
         kinds = ("F", "N", "G")
         for a, b in itertools.product(kinds, repeat=2):
@@ -215,10 +311,10 @@ def build_cases(tier):
 
 
 META = dict(
-    bounds={"quick": "histories of <=3 events x <=2 results over {function, function-without-values, gradient} x {tracked, other source}; one step from an arbitrary valid tracker state; objectives in [-1000,1000] or NaN, violations in [0,10], tolerance in [0,1] or None; objective transform: none, positive scaling, sign flip",
+    bounds={"quick": "histories of <=3 events x <=2 results over {function, function-without-values, gradient} x {tracked, other source}; one step from an arbitrary valid tracker state; objectives in [-1000,1000] or NaN, violations in [0,10], tolerance in [0,1] or None; objective transform: none, positive scaling, sign flip; BasicOptimizer end to end with 2-3 scripted function evaluations (symbolic objective, NaN flag and constraint value each), tolerance 1e-10 / 0 / 0.5, minimisation and maximisation",
             "thorough": "all kind pairs in the middle event, 4-event histories",
             "outside": "longer histories (covered inductively by the pre-held cases); several violations per result"},
-    stubs=["result objects are built directly (real dataclasses) with one bound violation each; Plan/OptimizerContext are real"],
+    stubs=["BasicBestCase: optimizer plug-in `symstub` (scripted requests), everything else real", "result objects are built directly (real dataclasses) with one bound violation each; Plan/OptimizerContext are real"],
     assumptions=["the optimizer-domain objective is k*u (k>0) or -k*u (maximisation) of the user-domain objective u",
                  "feasibility is judged on the optimizer-domain (transformed) result, as the tracker does",
                  "ties between equal objectives: any minimal result may be held"],
